@@ -11,10 +11,13 @@
 package main
 
 import (
+	"bufio"
+	"bytes"
 	"encoding/json"
 	"fmt"
 	"math/rand/v2"
 	"os"
+	"os/exec"
 	"path/filepath"
 	"regexp"
 	"strings"
@@ -240,7 +243,7 @@ func caseLine(c *fedlab.Case, v *fedlab.Verdict, replayPath string) string {
 	return common.L("c01", id, c.Summary(v),
 		common.L("flags", "(planning "+flag(v.PlanningOK)+")", "(gwerrors "+flag(v.GatewayErrors)+")", "(referrors "+flag(v.RefErrors)+")",
 			"(reqvalid "+flag(len(v.InvalidRequests) == 0)+")", "(owned "+flag(len(v.NotOwned) == 0)+")",
-			"(reprs "+flag(len(v.ReprIncomplete) == 0)+")", "(goequal "+flag(v.DataEqual)+")", "(orderonly "+flag(v.OrderOnly)+")"),
+			"(reprs "+flag(len(v.ReprIncomplete) == 0)+")", "(goequal "+flag(v.DataEqual)+")", "(orderonly "+flag(v.OrderOnly)+")", "(panic "+flag(v.Panicked)+")"),
 		common.L("gw", gw), common.L("ref", ref),
 		common.L("detail", common.QS(fedlab.Trunc(v.FailDetail(), 300))), common.L("replay", common.QS(replayPath)),
 		common.L("op", common.QS(fedlab.Trunc(c.Op.Text(), 400))))
@@ -248,25 +251,178 @@ func caseLine(c *fedlab.Case, v *fedlab.Verdict, replayPath string) string {
 
 // ---------------------------------------------------------------- commands
 
+// lineWriter appends case lines to the cases file and flushes each one, so that a worker
+// killed by a panic in an engine goroutine loses nothing.
+type lineWriter struct{ f *os.File }
+
+func newLineWriter(path string, truncate bool) *lineWriter {
+	if path == "" || path == "-" {
+		return &lineWriter{os.Stdout}
+	}
+	flags := os.O_CREATE | os.O_WRONLY | os.O_APPEND
+	if truncate {
+		flags = os.O_CREATE | os.O_WRONLY | os.O_TRUNC
+	}
+	f, err := os.OpenFile(path, flags, 0o644)
+	if err != nil {
+		panic(err)
+	}
+	return &lineWriter{f}
+}
+func (w *lineWriter) Line(s string) { fmt.Fprintln(w.f, s) }
+func (w *lineWriter) Close() {
+	if w.f != os.Stdout {
+		w.f.Close()
+	}
+}
+
+// supervise re-runs this program as a worker (-worker 1) and restarts it after the case that
+// killed it: a panic inside an engine goroutine cannot be recovered in-process, so the case being
+// run is reported under clause no_panic (with a replay) and the remaining cases still run.
+// The worker announces every case on stdout ("BEGIN <token>"); onCrash turns the last token into
+// the case line and the arguments that resume after it.
+func supervise(cmd string, a map[string]string, onCrash func(token, stderrTail string) (line string, resume map[string]string)) {
+	out := newLineWriter(a["out"], true)
+	out.Close()
+	args := map[string]string{}
+	for k, v := range a {
+		args[k] = v
+	}
+	args["worker"] = "1"
+	self, _ := os.Executable()
+	for restarts := 0; restarts < 200; restarts++ {
+		argv := []string{cmd}
+		for k, v := range args {
+			argv = append(argv, "-"+k, v)
+		}
+		c := exec.Command(self, argv...)
+		stdout, _ := c.StdoutPipe()
+		var errBuf bytes.Buffer
+		c.Stderr = &errBuf
+		if err := c.Start(); err != nil {
+			fmt.Fprintln(os.Stderr, "c01: cannot start worker:", err)
+			os.Exit(2)
+		}
+		last := ""
+		sc := bufio.NewScanner(stdout)
+		sc.Buffer(make([]byte, 1<<20), 1<<26)
+		for sc.Scan() {
+			if t := sc.Text(); strings.HasPrefix(t, "BEGIN ") {
+				last = t[6:]
+			} else if a["out"] == "" || a["out"] == "-" {
+				fmt.Println(t)
+			}
+		}
+		err := c.Wait()
+		tail := errBuf.String()
+		if err == nil {
+			os.Stderr.WriteString(tail)
+			return
+		}
+		if last == "" {
+			os.Stderr.WriteString(tail)
+			fmt.Fprintln(os.Stderr, "c01: worker failed before the first case:", err)
+			os.Exit(2)
+		}
+		msg := tail
+		if k := strings.Index(msg, "panic:"); k >= 0 {
+			msg = msg[k:]
+		} else if k := strings.Index(msg, "fatal error:"); k >= 0 {
+			msg = msg[k:]
+		}
+		line, resume := onCrash(last, fedlab.Trunc(msg, 1500))
+		w := newLineWriter(a["out"], false)
+		w.Line(line)
+		w.Close()
+		fmt.Fprintf(os.Stderr, "c01: worker died on case %s (%v); reported under no_panic, resuming\n", last, err)
+		if resume == nil {
+			return
+		}
+		for k, v := range resume {
+			args[k] = v
+		}
+	}
+}
+
+// panicVerdict is the verdict of a case whose execution killed the worker process.
+func panicVerdict(msg string) *fedlab.Verdict {
+	first := msg
+	if k := strings.Index(first, "\n"); k >= 0 {
+		first = first[:k]
+	}
+	return &fedlab.Verdict{Panicked: true, PlanError: "engine panic (process died): " + first + " | " + firstFrames(msg)}
+}
+
+func firstFrames(msg string) string {
+	var out []string
+	for _, l := range strings.Split(msg, "\n") {
+		l = strings.TrimSpace(l)
+		if strings.Contains(l, "graphql-go-tools") && strings.Contains(l, "(") && !strings.HasPrefix(l, "/") {
+			out = append(out, l)
+			if len(out) == 3 {
+				break
+			}
+		}
+	}
+	return strings.Join(out, " <- ")
+}
+
 func cmdGen(a map[string]string) {
 	seed := common.ArgU64(a, "seed", 1)
 	n := common.ArgInt(a, "n", 150)
 	from := common.ArgInt(a, "from", 0)
+	to := common.ArgInt(a, "to", from+n)
+	ufrom := common.ArgInt(a, "ufrom", 0)
 	unis := common.ArgInt(a, "unis", 1)
 	maxShrink := common.ArgInt(a, "shrink", 2)
+	knobs := fedlab.ParseKnobs(a["knobs"])
+	if a["worker"] != "1" {
+		t0 := time.Now()
+		a["to"] = fmt.Sprint(to)
+		supervise("gen", a, func(token, tail string) (string, map[string]string) {
+			var i, u int
+			fmt.Sscan(token, &i, &u)
+			c := fedlab.BuildCase(seed, i, u, knobs, false)
+			v := panicVerdict(tail)
+			r := &runner{replays: a["replaydir"]}
+			rp := mkReplay(c, v, true, nil)
+			rp.GatewayErr = tail
+			line := caseLine(c, v, r.writeReplay(rp, "-panic"))
+			u++
+			if u >= unis {
+				i, u = i+1, 0
+			}
+			if i >= to {
+				return line, nil
+			}
+			return line, map[string]string{"from": fmt.Sprint(i), "ufrom": fmt.Sprint(u), "shrink": "0"}
+		})
+		if a["out"] != "" && a["out"] != "-" {
+			if b, err := os.ReadFile(a["out"]); err == nil {
+				lines := bytes.Count(b, []byte("\n"))
+				el := time.Since(t0).Seconds()
+				fmt.Fprintf(os.Stderr, "c01 gen: %d case lines in %.1fs (%.1f cases/s)\n", lines, el, float64(lines)/el)
+			}
+		}
+		return
+	}
 	var skipShrink *regexp.Regexp
 	if a["shrinkskip"] != "" {
 		skipShrink = regexp.MustCompile(a["shrinkskip"])
 	}
-	knobs := fedlab.ParseKnobs(a["knobs"])
-	out := common.NewOut(a["out"])
+	out := newLineWriter(a["out"], false)
 	defer out.Close()
 	r := &runner{replays: a["replaydir"], seeded: a["seeded"]}
 	defer r.close()
 	t0 := time.Now()
 	evals, fails, shrunk := 0, 0, 0
-	for i := from; i < from+n; i++ {
-		for u := 0; u < unis; u++ {
+	for i := from; i < to; i++ {
+		u0 := 0
+		if i == from {
+			u0 = ufrom
+		}
+		for u := u0; u < unis; u++ {
+			fmt.Printf("BEGIN %d %d\n", i, u)
 			c := fedlab.BuildCase(seed, i, u, knobs, false)
 			key := fmt.Sprintf("%d/%d", seed, c.CfgIdx())
 			v, err := r.run(c, key)
@@ -280,7 +436,7 @@ func cmdGen(a map[string]string) {
 				fails++
 				rp := mkReplay(c, v, true, r.lab)
 				path = r.writeReplay(rp, "")
-				if shrunk < maxShrink && (skipShrink == nil || !skipShrink.MatchString(v.FailDetail())) {
+				if shrunk < maxShrink && !v.Panicked && (skipShrink == nil || !skipShrink.MatchString(v.FailDetail())) {
 					shrunk++
 					if sp := r.shrink(c, v); sp != "" {
 						path = sp
@@ -291,7 +447,11 @@ func cmdGen(a map[string]string) {
 		}
 	}
 	el := time.Since(t0).Seconds()
-	fmt.Fprintf(os.Stderr, "c01 gen: %d evaluations, %d failing, %.1fs (%.1f cases/s), executor calls %d\n", evals, fails, el, float64(evals)/el, r.exec.Calls)
+	calls := 0
+	if r.exec != nil {
+		calls = r.exec.Calls
+	}
+	fmt.Fprintf(os.Stderr, "c01 gen worker: %d evaluations, %d failing, %.1fs (%.1f cases/s), executor calls %d\n", evals, fails, el, float64(evals)/el, calls)
 }
 
 func cmdOne(a map[string]string) {
@@ -339,19 +499,56 @@ func cmdOne(a map[string]string) {
 }
 
 // cmdReplay re-runs self-contained replay files: -in is one file or a directory of *.json.
-func cmdReplay(a map[string]string) {
-	out := common.NewOut(a["out"])
-	defer out.Close()
-	var files []string
-	if st, err := os.Stat(a["in"]); err == nil && st.IsDir() {
-		files, _ = filepath.Glob(filepath.Join(a["in"], "*.json"))
+func replayFiles(in string) []string {
+	if st, err := os.Stat(in); err == nil && st.IsDir() {
+		files, _ := filepath.Glob(filepath.Join(in, "*.json"))
+		return files
 	} else if err == nil {
-		files = []string{a["in"]}
+		return []string{in}
 	}
+	return nil
+}
+
+func cmdReplay(a map[string]string) {
+	files := replayFiles(a["in"])
+	skip := common.ArgInt(a, "skip", 0)
+	if a["worker"] != "1" && a["v"] != "1" && a["plan"] != "1" {
+		supervise("replay", a, func(token, tail string) (string, map[string]string) {
+			var k int
+			fmt.Sscan(token, &k)
+			line := common.L("c01", "(id 0 0 0 \"\")", "(laberror "+common.QS("worker died on "+files[k])+")")
+			if sc, err := loadSaved(files[k]); err == nil {
+				c := sc.toCase()
+				v := panicVerdict(tail)
+				r := &runner{replays: a["replaydir"]}
+				rp := mkReplay(c, v, true, nil)
+				rp.GatewayErr = tail
+				rp.ShrunkFrom = "replay of " + files[k]
+				path := r.writeReplay(rp, "-panic")
+				if path == "" {
+					path = files[k]
+				}
+				line = caseLine(c, v, path)
+			}
+			if k+1 >= len(files) {
+				return line, nil
+			}
+			return line, map[string]string{"skip": fmt.Sprint(k + 1)}
+		})
+		return
+	}
+	out := newLineWriter(a["out"], a["worker"] != "1")
+	defer out.Close()
 	r := &runner{replays: a["replaydir"]}
 	defer r.close()
 	bad := 0
 	for i, f := range files {
+		if i < skip {
+			continue
+		}
+		if a["worker"] == "1" {
+			fmt.Printf("BEGIN %d\n", i)
+		}
 		sc, err := loadSaved(f)
 		if err != nil {
 			out.Line(common.L("c01", "(id 0 0 0 \"\")", "(laberror "+common.QS(err.Error())+")"))
